@@ -213,6 +213,9 @@ class M:
                 L.append(f"mot.{o}()")
             elif o == "invert":
                 L.append("mot.invert()"); self.state_dep += 1
+                if self.draw(st.booleans()):
+                    L.append("mon.write(mot.get_applied_speed())")   # the inverted reading, observed at once
+                    self.getter_after_change += 1
             elif o == "ramp":
                 d = self.draw(st.sampled_from([0, 10, 20, 40, 45, "int(abs(mot.get_speed()) * 40)"])) if not self.clamp else self.draw(st.sampled_from([-10, 0, 20]))
                 L.append(f"mot.ramp({self.speed()}, {d})"); self.state_dep += 1
